@@ -12,6 +12,7 @@ the n-th generated ID (`base.ID()`, n = 0, 1, …) is the token `100 + n`.
     contents <id> <crlf:0|1>
     segmentbody <fileTok> <parseOK> <validOK>                 POST /segment, NACHA text body
     addbatch <id> <batchTok> | getbatch <id> <b> | delbatch <id> <b> | batches <id>
+    reset                                                     a fresh server (state := init); prints `ok -`
 
 Draw accounting (the Go side must bind the server's random IDs in this order): `create` / `createjson` with `-`
 draws one (whatever the parser said); `flatten` that succeeds draws one; `segment` / `segmentbody` that succeed draw two
@@ -145,7 +146,9 @@ def parseReq (line : String) : Option Req :=
 
 def runFrom (s : State TFile) : List String → List String
   | [] => []
-  | l :: ls => match parseReq l with
+  | l :: ls =>
+    if l.trimAscii.toString == "reset" then "ok -" :: runFrom init ls else
+    match parseReq l with
     | some r => showResp (step tokLib s r).2 :: runFrom (step tokLib s r).1 ls
     | none => "bad-op" :: runFrom s ls
 
